@@ -551,3 +551,42 @@ CLAUSES["frame.args"] = frame_args
 CLAUSES["int_dtype"] = int_dtype
 frame_args.function = "index-layer frame"
 int_dtype.function = "partial_trace"
+
+
+def e1_crosscheck(p):
+    """self-check of the prover, not of the code: the E1 symbolic executor's prediction on concrete dimensions (which input entries each
+    output entry reads) must be what CPython computes with the real function on an arange array"""
+    from toqito.channels import partial_trace, partial_transpose
+    from toqito.perms import permute_systems
+
+    if "engine_error" in p:
+        raise Undecided("E1 engine could not execute this concrete instance: %s" % p["engine_error"])
+    fn = p["fn"]
+    if fn == "permute_systems":
+        rd, cd = p["rdims"], p["cdims"]
+        if p["kind"] == "vector":
+            A = np.arange(int(np.prod(rd))) + 1
+            got = permute_systems(A, p["perm"], list(rd), False, p["inv"])
+        else:
+            A = (np.arange(int(np.prod(rd)) * int(np.prod(cd))) + 1).reshape(int(np.prod(rd)), int(np.prod(cd)))
+            got = permute_systems(A, p["perm"], [list(rd), list(cd)], p["row_only"], p["inv"])
+    elif fn == "partial_trace":
+        N = int(np.prod(p["dims"]))
+        A = (np.arange(N * N) + 1).reshape(N, N)
+        got = partial_trace(A, list(p["sys"]), list(p["dims"]))
+    else:
+        N = int(np.prod(p["dims"]))
+        A = (np.arange(N * N) + 1).reshape(N, N)
+        got = partial_transpose(A, list(p["sys"]), list(p["dims"]))
+    got = np.asarray(got)
+    if list(got.shape) != list(p["shape"]):
+        raise Violation("E1 predicted shape %s, CPython gives %s (%s)" % (p["shape"], got.shape, fn))
+    flat = got.reshape(-1)
+    for i, terms in enumerate(p["pred"]):
+        exp = sum(A[tuple(t)] for t in terms)
+        if flat[i] != exp:
+            raise Violation("E1 predicts output entry %d = sum of input entries %s = %s, CPython gives %s (%s)" % (i, terms, exp, flat[i], fn))
+
+
+e1_crosscheck.function = "E1 engine"
+CLAUSES["e1.crosscheck"] = e1_crosscheck
